@@ -52,7 +52,7 @@ def r1(cx, vc, pr):
                 if c.kind == "discr" and c.place.l == t.dest.l: sw = term; break
         if sw is None: continue
         some = variant_edge(sw, 1)
-        fed = [p for p in prints if p.bb in cfg.reach(some[2]) and any(k == "call" and o is t for k, o in sl.origins(p.args[2]))]
+        fed = [p for p in prints if p.bb in cfg.after(some) and any(k == "call" and o is t for k, o in sl.origins(p.args[2]))]
         if not fed: continue
         nm += 1
         good = cfg.must_pass(some[2], [t.bb] + okret, {fed[0].bb})
@@ -63,7 +63,7 @@ def r1(cx, vc, pr):
     # each print_call_ret result goes through `?`: its Err leaves the function, never the successful return
     for i, p in enumerate(prints):
         ce, be = try_edges(vc, du, sl, p)
-        good = be is not None and not any(x in cfg.reach(be[2]) for x in okret) and not any(n.bb in cfg.reach(be[2]) for n in nexts)
+        good = be is not None and not any(x in cfg.after(be) for x in okret) and not any(n.bb in cfg.after(be) for n in nexts)
         cx.check(good, "C20.R1", "%s:varlink_call:print_call_ret#%d:error-propagates" % (PKG, i), "%s varlink_call" % p.sp,
                  "an error reported by print_call_ret does not end varlink_call with Err (exit status would be 0 although a reply was an error)", note_ok="`?`: Err -> return Err")
     # print_call_ret: print only on the Ok path of ret
@@ -75,7 +75,7 @@ def r1(cx, vc, pr):
         sw = pr.blocks[br[0].target].term
         ce, be = variant_edge(sw, 0), variant_edge(sw, 1)
         okr = [s.bb for s in pr.stmts() if s.kind == "assign" and s.lhs.l == 0 and not s.lhs.p and s.rv == "agg" and isinstance(s.agg, dict) and s.agg.get("variant") == "Ok"]
-        good = all(pcfg.edge_dominates(ce, t.bb) for t in pp) and not any(x in pcfg.reach(be[2]) for x in okr) and all(pcfg.must_pass(ce[2], okr, {t.bb for t in pp}) for _ in [0])
+        good = all(pcfg.edge_dominates(ce, t.bb) for t in pp) and not any(x in pcfg.after(be) for x in okr) and all(pcfg.must_pass(ce[2], okr, {t.bb for t in pp}) for _ in [0])
     cx.check(good, "C20.R1", "%s:print_call_ret:prints-iff-ok" % PKG, pr.sp, "print_call_ret does not print exactly on the Ok path of the reply (or returns Ok for an error reply)", note_ok="ret? ; println!(json(reply)) ; Ok(())")
     # main: exit(1) exactly on Err
     mains = [b for b in cx.mir.bodies(PKG) if b.promoted is None and b.path == "main"]
@@ -91,7 +91,7 @@ def r1(cx, vc, pr):
             c = switch_cond(m, mdu, b.term)
             if c.kind == "discr" and any(k == "call" and o is dm[0] for k, o in msl.origins(c.place)):
                 err = variant_edge(b.term, 1); ok = variant_edge(b.term, 0)
-                good = mcfg.edge_dominates(err, ex[0].bb) and ex[0].bb not in mcfg.reach(ok[2]) and mcfg.must_pass(err[2], mcfg.returns(), {ex[0].bb})
+                good = mcfg.edge_dominates(err, ex[0].bb) and ex[0].bb not in mcfg.after(ok) and mcfg.must_pass(err[2], mcfg.returns(), {ex[0].bb})
     cx.check(good, "C20.R1", "%s:main:exit-status" % PKG, m.sp, "main does not call process::exit(1) exactly when do_main returned Err", note_ok="Err -> exit(1); Ok -> status 0")
     dmb = cx.mir.one(PKG, "do_main")
     dcfg = Cfg(dmb); ddu = DefUse(dmb); dsl = Slice(dmb, ddu)
@@ -100,7 +100,7 @@ def r1(cx, vc, pr):
     if ok2:
         ce, be = try_edges(dmb, ddu, dsl, vcalls[0])
         okr = [s.bb for s in dmb.stmts() if s.kind == "assign" and s.lhs.l == 0 and not s.lhs.p and s.rv == "agg" and isinstance(s.agg, dict) and s.agg.get("variant") == "Ok"]
-        ok2 = be is not None and not any(x in dcfg.reach(be[2]) for x in okr)
+        ok2 = be is not None and not any(x in dcfg.after(be) for x in okr)
     cx.check(ok2, "C20.R1", "%s:do_main:call-error-propagates" % PKG, dmb.sp, "do_main swallows the error of varlink_call", note_ok="varlink_call(..)?")
 
 
@@ -139,7 +139,7 @@ def r2(cx, vc):
             out.append((kinds, from_s, plus1, ix))
         return out
     a = slice_of(wa[0].args[0])
-    oka = any(("Range" in ks or "RangeTo" in ks) and fs and not p1 and ix.bb in cfg.reach(some[2]) for ks, fs, p1, ix in a)
+    oka = any(("Range" in ks or "RangeTo" in ks) and fs and not p1 and ix.bb in cfg.after(some) for ks, fs, p1, ix in a)
     cx.check(oka, "C20.R2", "%s:varlink_call:address-is-prefix" % PKG, "%s varlink_call" % wa[0].sp, "the address handed to Connection::with_address is not url[..n] with n the position of the last slash (%s)" % [(sorted(k), f, p) for k, f, p, _ in a],
              note_ok="address = url[0..n]")
     msl = Slice(vc, du, pass_through=NO_INDEX_PASS + ("=from",))
@@ -154,7 +154,7 @@ def r2(cx, vc):
     cx.check(okm, "C20.R2", "%s:varlink_call:method-is-suffix" % PKG, "%s varlink_call" % mn[0].sp, "the method name is not url[n+1..] behind the last slash (%s)" % [(sorted(k), p, f) for k, p, f in m], note_ok="method = url[n+1..]")
     # only the no-dot test may reject between split and connect
     errs = [s.bb for s in vc.stmts() if s.kind == "assign" and s.lhs.l == 0 and not s.lhs.p and s.rv == "agg" and isinstance(s.agg, dict) and s.agg.get("variant") == "Err"]
-    region = cfg.reach(some[2], blocked_nodes={wa[0].bb})
+    region = cfg.after(some, blocked_nodes={wa[0].bb})
     rej = [e for e in errs if e in region]
     dot_edges = []
     for b in vc.blocks:
